@@ -29,6 +29,7 @@ SPEC_MODULE_PROPS = {
     'fold': ['C02', 'C03', 'C09', 'C10'],
     'tok': ['C06', 'C07', 'C11', 'C15'],
     'filt': ['C11'],
+    'sess': ['C01', 'C04', 'C05', 'C08', 'C17', 'C18'],
 }
 
 TRUSTED_STRSPEC = 'assumed contracts on std str/iterator functions (str::contains/starts_with via Pattern, char_indices, Filter::count, slice::Iter::position, Iterator::find/sum wrappers, String::with_capacity, Cow deref, char::is_ascii_alphabetic, BytesMut::from(&str), Bytes) in contracts/prelude/vx_base.rs'
@@ -44,3 +45,9 @@ PROPS['C19'] = {'units': ['P'], 'spec_tags': [], 'bounded': ['frameops'],
                             "assumed contracts of std's default Iterator::count on the repository's Fields iterator (wrapper vx_fields_count), Option::as_deref, Arc/String::as_ref, vstd's slice::Iter / vec::IntoIter laws",
                             'termination of the hole-skipping recursion in Fields/IntoIter::{next,next_back} is not checked (exec_allows_no_decreases_clause): each recursive call consumes one slot of a finite vector',
                             'a slice / Vec of non-zero-sized elements has at most isize::MAX elements (size_hint arithmetic)']}
+
+TRUSTED_SESS = "oracle: MPD session model (contracts/spec/sess.rs): while the server waits in idle only noidle may be written; noidle outside idle is ignored without a reply; every other command is answered exactly once and in order (transcribed from the MPD protocol reference)"
+TRUSTED_ASYNC = 'N2 de-async: suspension points are dropped; sound for single-task reasoning because everything a task touches between two awaits is owned or &mut-borrowed by it; other tasks are visible only through channels whose contracts are nondeterministic; N3: select! is an arbitrary choice (any polling order, no fairness); cancellation of the losing future is NOT modelled beyond the cancel-safety obligation of AsyncConnection::receive (C04.cancel_safe)'
+TRUSTED_CHAN = 'concurrency between client handles is abstracted by the queue contract (unbounded mpsc FIFO across all sender clones, items travel as tuples), not explored schedule by schedule; drop semantics of Rust (State, responders and the transport are dropped when run_loop returns) are assumed, not checked'
+for _k in ('C01', 'C04', 'C05', 'C08'):
+    PROPS[_k] = {'units': ['C'], 'spec_tags': ['sess'], 'trusted': [TRUSTED_TOKIO, TRUSTED_SESS, TRUSTED_ASYNC, TRUSTED_CHAN, TRUSTED_BYTES, TRUSTED_STD], 'bounded': []}
